@@ -70,11 +70,14 @@ var cliMu sync.Mutex
 
 // run executes gts with the given arguments; stdin is always a pipe. outfile=true adds "-o <file>" after the
 // subcommand and returns that file's content.
-func (e cliEnv) run(args []string, stdin []byte, outfile bool) cliResult {
+func (e cliEnv) run(args []string, stdin []byte, outfile bool, exts ...string) cliResult {
 	full := append([]string{}, args...)
 	outPath := ""
 	if outfile {
 		ext := ".out"
+		if len(exts) > 0 && exts[0] != "" {
+			ext = exts[0] // an extension gts derives the output format from (.fasta, .gb, .genbank)
+		}
 		outPath = filepath.Join(e.dir, "out", fmt.Sprintf("o%d%s", time.Now().UnixNano(), ext))
 		full = append([]string{full[0], "-o", outPath}, full[1:]...)
 	}
